@@ -41,8 +41,10 @@ macro_rules! bodies {
             use super::*;
             crate::width_prelude!($t, $s, $r, $rs, $d);
 
+            /// Symbolic factors; the exponent is a whole-unit multiple in the given range (a single value is
+            /// passed concretely, which lets symbolic execution prune the other exponent paths).
             pub fn any_params(min_exp_units: R, max_exp_units: R) -> PriceImpactParams<T> {
-                let e: T = kani::any();
+                let e: T = if min_exp_units == max_exp_units { (min_exp_units * UNIT) as T } else { kani::any() };
                 kani::assume(u(e) % UNIT == 0 && u(e) / UNIT >= min_exp_units && u(e) / UNIT <= max_exp_units);
                 PriceImpactParams::builder().exponent(e).positive_factor(kani::any()).negative_factor(kani::any()).build()
             }
@@ -300,10 +302,15 @@ macro_rules! bodies {
 
             /// Apply a balance change (USD values), then its exact reverse on the resulting pool; both legs
             /// through the real code. `Some((same_side, impact1, impact2))` when both legs succeed.
-            pub fn round_trip_legs(params: &PriceImpactParams<T>) -> Option<(bool, RS, RS)> {
+            pub fn round_trip_legs(params: &PriceImpactParams<T>, only_same_side: Option<bool>) -> Option<(bool, RS, RS)> {
                 let pool = VPool::<T>::any();
                 let (dl, ds): (S, S) = (kani::any(), kani::any());
                 kani::assume(dl != S::MIN && ds != S::MIN);
+                if let Some(ss) = only_same_side {
+                    let nl = (u(pool.long) as RS) + s(dl);
+                    let ns = (u(pool.short) as RS) + s(ds);
+                    kani::assume(((u(pool.long) <= u(pool.short)) == (nl <= ns)) == ss);
+                }
                 let one: T = 1;
                 let mut out = None;
                 let leg1 = PoolDelta::try_new(&pool, dl, ds, &one, &one);
@@ -330,26 +337,48 @@ macro_rules! bodies {
                 out
             }
 
+            pub fn round_trip_same_side(min_exp_units: R, max_exp_units: R) {
+                let params = any_params(min_exp_units, max_exp_units);
+                if let Some((same_side, v1, v2)) = round_trip_legs(&params, Some(true)) {
+                    let sum = v1 + v2;
+                    assert!(same_side);
+                    assert!(sum <= 1, "C03: a round trip yields a total price impact above the rounding slack of one unit");
+                    kani::cover!(sum < -1 && v1 > 0, "improving first");
+                    kani::cover!(sum < -1 && v2 > 0, "worsening first");
+                    kani::cover!(sum == 0 && v1 > 1, "zero-sum round trip with equal factors");
+                }
+            }
+
+            pub fn round_trip_cross_over(min_exp_units: R, max_exp_units: R) {
+                let params = any_params(min_exp_units, max_exp_units);
+                if let Some((same_side, v1, v2)) = round_trip_legs(&params, Some(false)) {
+                    let sum = v1 + v2;
+                    assert!(!same_side);
+                    assert!(sum <= 0, "C03: a cross-over round trip yields a positive total price impact");
+                    kani::cover!(sum < 0 && v1 > 0, "positive first leg");
+                    kani::cover!(sum < 0 && v2 > 0, "positive second leg");
+                    kani::cover!(sum == 0 && v1 > 0, "zero-sum cross-over round trip");
+                }
+            }
+
+            /// Both cases in one harness (thorough tier).
             pub fn round_trip(min_exp_units: R, max_exp_units: R) {
                 let params = any_params(min_exp_units, max_exp_units);
-                if let Some((same_side, v1, v2)) = round_trip_legs(&params) {
+                if let Some((same_side, v1, v2)) = round_trip_legs(&params, None) {
                     let sum = v1 + v2;
                     assert!(sum <= 1, "C03: a round trip yields a total price impact above the rounding slack of one unit");
                     if !same_side {
                         assert!(sum <= 0, "C03: a cross-over round trip yields a positive total price impact");
                     }
                     kani::cover!(same_side && sum < -1 && v1 > 0, "same-side round trip, improving first");
-                    kani::cover!(same_side && sum < -1 && v2 > 0, "same-side round trip, worsening first");
                     kani::cover!(!same_side && sum < 0 && v1 > 0, "cross-over round trip with a positive leg");
-                    kani::cover!(u(*params.exponent()) > UNIT && sum < -1, "exponent above one unit");
                 }
             }
 
             /// The strict clause inside the keyed region (same-side rebalance).
             pub fn round_trip_strict_same_side(min_exp_units: R, max_exp_units: R) {
                 let params = any_params(min_exp_units, max_exp_units);
-                if let Some((same_side, v1, v2)) = round_trip_legs(&params) {
-                    kani::assume(same_side);
+                if let Some((_, v1, v2)) = round_trip_legs(&params, Some(true)) {
                     assert!(v1 + v2 <= 0, "C03: a same-side round trip yields a positive total price impact");
                 }
             }
@@ -361,8 +390,10 @@ macro_rules! bodies {
                 m
             }
 
-            /// `swap_impact_value`: the virtual inventory can only lower the impact.
-            pub fn swap_virtual_impact(min_exp_units: R, max_exp_units: R, max_price: R) {
+            /// `swap_impact_value`: the virtual inventory can only lower the impact; with `exact_min` the
+            /// result is compared with min(real, exact reference of the virtual leg).
+            /// Returns (without, with, has_virtual) values for the callers' witnesses.
+            pub fn swap_virtual_impact_core(min_exp_units: R, max_exp_units: R, max_price: R, exact_min: bool) -> (Option<S>, Option<S>, bool) {
                 let mut m = swap_market();
                 let params = any_params(min_exp_units, max_exp_units);
                 m.swap_impact_params = VImpact { exponent: *params.exponent(), positive_factor: *params.positive_factor(), negative_factor: *params.negative_factor() };
@@ -370,45 +401,51 @@ macro_rules! bodies {
                 kani::assume(u(pl) <= max_price && u(ps) <= max_price);
                 let (dl, ds): (S, S) = (kani::any(), kani::any());
                 let delta = m.liquidity.pool_delta_with_amounts(&dl, &ds, &pl, &ps);
+                let mut out = (None, None, m.vi_swaps.is_some());
                 if let Ok(delta) = delta {
-                    let real = delta.price_impact::<D>(&params);
                     let without = m.swap_impact_value(&delta, false);
                     let with = m.swap_impact_value(&delta, true);
-                    match (&real, &without) {
-                        (Ok(r), Ok(w)) => assert!(r.value == w.value && bc_code(r.balance_change) == bc_code(w.balance_change), "C03: swap impact without virtual inventory differs from the pool's price impact"),
-                        (Err(_), Err(_)) => {}
-                        _ => assert!(false, "C03: swap impact without virtual inventory differs from the pool's price impact"),
-                    }
                     if let (Ok(w), Ok(v)) = (&without, &with) {
                         assert!(v.value <= w.value, "C03: virtual inventory raised the swap price impact");
                         if w.value >= 0 || m.vi_swaps.is_none() {
-                            assert!(v.value == w.value, "C03: virtual inventory changed a non-negative swap price impact");
-                        } else {
-                            // the virtual leg, computed by the same real code on the virtual pool
+                            assert!(v.value == w.value && bc_code(v.balance_change) == bc_code(w.balance_change), "C03: virtual inventory changed a non-negative swap price impact");
+                        } else if exact_min {
+                            // exact reference of the virtual leg: the virtual pool valued at the same prices,
+                            // moved by the same USD deltas
                             let vi = m.vi_swaps.unwrap();
-                            let virt = vi.pool_delta_with_values(*delta.delta().long_value(), *delta.delta().short_value(), &pl, &ps).and_then(|d| d.price_impact::<D>(&params));
-                            assert!(virt.is_ok());
-                            if let Ok(virt) = &virt {
-                                assert!(v.value == if virt.value < w.value { virt.value } else { w.value }, "C03: swap impact is not the worse of real and virtual impact");
-                            }
-                            core::mem::forget(virt);
+                            let virt = (|| {
+                                let l = fit(u(vi.long) * u(pl))?;
+                                let s_ = fit(u(vi.short) * u(ps))?;
+                                ref_impact(l, s_, s(*delta.delta().long_value()), s(*delta.delta().short_value()), &params)
+                            })();
+                            assert!(virt.is_some(), "C03: virtual swap impact computed although the exact computation fails");
+                            let virt = virt.unwrap();
+                            assert!(s(v.value) == if virt.value < s(w.value) { virt.value } else { s(w.value) }, "C03: swap impact is not the worse of real and virtual impact");
                         }
-                        kani::cover!(v.value < w.value, "virtual impact is worse");
-                        kani::cover!(v.value == w.value && w.value < 0 && m.vi_swaps.is_some(), "real impact is worse");
+                        out = (Some(w.value), Some(v.value), m.vi_swaps.is_some());
                     }
                     if without.is_ok() && with.is_err() {
                         assert!(m.vi_swaps.is_some() && without.as_ref().map_or(false, |w| w.value < 0), "C03: swap impact with virtual inventory fails although the virtual leg is not evaluated");
+                        out = (without.as_ref().ok().map(|w| w.value), None, true);
                     }
                     if without.is_err() {
                         assert!(with.is_err());
                     }
-                    kani::cover!(without.is_ok() && with.is_err(), "virtual leg fails");
-                    core::mem::forget((real, without, with));
+                    core::mem::forget((without, with));
                 }
+                out
+            }
+
+            pub fn swap_virtual_impact(min_exp_units: R, max_exp_units: R, max_price: R, exact_min: bool) {
+                let (w, v, has_virtual) = swap_virtual_impact_core(min_exp_units, max_exp_units, max_price, exact_min);
+                kani::cover!(w.is_some() && v.is_some() && v.unwrap() < w.unwrap(), "virtual impact is worse");
+                kani::cover!(w.is_some() && v == w && w.unwrap() < 0 && has_virtual, "real impact is worse");
+                kani::cover!(w.is_some() && v == w && w.unwrap() > 0 && has_virtual, "positive impact: virtual leg skipped");
+                kani::cover!(w.is_some() && v.is_none(), "virtual leg fails");
             }
 
             /// `position_price_impact`: the virtual inventory can only lower the impact.
-            pub fn position_virtual_impact(min_exp_units: R, max_exp_units: R) {
+            pub fn position_virtual_impact(min_exp_units: R, max_exp_units: R, exact_real: bool, exact_min: bool) {
                 let mut m = VMarket::<T, D>::zero();
                 m.open_interest = Side2 { long: VPool::any(), short: VPool::any() };
                 m.vi_positions = if kani::any() { Some(VPool::any()) } else { None };
@@ -421,25 +458,27 @@ macro_rules! bodies {
                 // reference for the real leg: open interest totals as USD values at price 1
                 let l = u(m.open_interest.long.long) + u(m.open_interest.long.short);
                 let s_ = u(m.open_interest.short.long) + u(m.open_interest.short.short);
-                let want = if l <= TMAX && s_ <= TMAX {
+                let want = if exact_real && l <= TMAX && s_ <= TMAX {
                     if pos.is_long { ref_impact(l, s_, s(size_delta), 0, &params) } else { ref_impact(l, s_, 0, s(size_delta), &params) }
                 } else {
                     None
                 };
-                match &without {
-                    Ok(w) => {
-                        assert!(want.is_some(), "C03: position impact computed although the exact computation fails");
-                        let r = want.as_ref().unwrap();
-                        assert!(s(w.value) == r.value && bc_code(w.balance_change) == r.bc, "C03: position price impact differs from the exact reference on the open interest");
+                if exact_real {
+                    match &without {
+                        Ok(w) => {
+                            assert!(want.is_some(), "C03: position impact computed although the exact computation fails");
+                            let r = want.as_ref().unwrap();
+                            assert!(s(w.value) == r.value && bc_code(w.balance_change) == r.bc, "C03: position price impact differs from the exact reference on the open interest");
+                        }
+                        Err(_) => assert!(want.is_none(), "C03: position impact fails where the exact computation is representable"),
                     }
-                    Err(_) => assert!(want.is_none(), "C03: position impact fails where the exact computation is representable"),
                 }
                 if let (Ok(w), Ok(v)) = (&without, &with) {
                     assert!(v.value <= w.value, "C03: virtual inventory raised the position price impact");
                     if w.value >= 0 || m.vi_positions.is_none() {
                         assert!(v.value == w.value, "C03: virtual inventory changed a non-negative position price impact");
                     }
-                    if let (true, Some(vi)) = (w.value < 0, m.vi_positions) {
+                    if let (true, true, Some(vi)) = (exact_min, w.value < 0, m.vi_positions) {
                         // the virtual leg: netted virtual open interest, offset by |size delta| when decreasing
                         let mn = if vi.long < vi.short { u(vi.long) } else { u(vi.short) };
                         let off = if size_delta < 0 { (-s(size_delta)) as R } else { 0 };
@@ -524,14 +563,15 @@ fn c03_impact_exact_cross_over_e2_u8() {
     w8::price_impact_exact_cross_over(2, 2);
 }
 
-//@ prop=C03 tier=quick kind=hold
+//@ prop=C03 tier=thorough kind=hold
 //@ enc=PoolDelta::{try_new,price_impact}, PriceImpactParams::adjusted_factors, utils::apply_factors, Fixed::{checked_pow,checked_mul}
-//@ bound=width-reduced T=u16, DECIMALS=2 (UNIT 100): every u16 USD-value pool, every i16 USD delta pair, every u16 factor pair, exponent in {1,2}*UNIT (unwind 4); sign clause only
+//@ bound=width-reduced T=u16, DECIMALS=2 (UNIT 100): every u16 USD-value pool, every i16 USD delta pair, every u16 factor pair, exponent 1*UNIT; sign clause only
 //@ stubs=pool = plain VPool; by-design exclusion: improved AND cross-over
+//@ timeout=5400 mem=30
 #[kani::proof]
 #[kani::unwind(4)]
 fn c03_price_impact_sign_u16() {
-    w16::price_impact_sign(1, 2);
+    w16::price_impact_sign(1, 1);
 }
 
 //@ prop=C03 tier=quick kind=finding:c03_improved_cross_over_negative
@@ -546,12 +586,46 @@ fn c03_improved_cross_over_sign_u8() {
 
 //@ prop=C03 tier=quick kind=hold
 //@ enc=PoolDelta::{try_new,price_impact,is_same_side_rebalance}, PriceImpactParams::adjusted_factors, utils::apply_factors
-//@ bound=width-reduced T=u8, DECIMALS=1: every u8 USD-value pool, i8 USD delta pair (not i8::MIN), every factor pair, exponent in {1,2}*UNIT (unwind 4); both legs must succeed; slack: 1 unit for same-side, 0 for cross-over
+//@ bound=width-reduced T=u8, DECIMALS=1: every u8 USD-value pool and i8 USD delta pair (not i8::MIN) that stay on one side of the balance point, every factor pair, exponent 1*UNIT; the change and its exact reverse on the resulting pool, both legs must succeed; slack: 1 unit
 //@ stubs=pool = plain VPool; by-design slack of one unit (independent floors), see c03_round_trip_strict_same_side_u8
+//@ timeout=1800
 #[kani::proof]
 #[kani::unwind(4)]
-fn c03_round_trip_not_profitable_u8() {
-    w8::round_trip(1, 2);
+fn c03_round_trip_same_side_e1_u8() {
+    w8::round_trip_same_side(1, 1);
+}
+
+//@ prop=C03 tier=quick kind=hold
+//@ enc=PoolDelta::{try_new,price_impact,is_same_side_rebalance}, PriceImpactParams::adjusted_factors, utils::apply_factors, Fixed::checked_pow
+//@ bound=width-reduced T=u8, DECIMALS=1: as c03_round_trip_same_side_e1_u8 with exponent 2*UNIT (unwind 4)
+//@ stubs=pool = plain VPool; by-design slack of one unit
+//@ timeout=1800
+#[kani::proof]
+#[kani::unwind(4)]
+fn c03_round_trip_same_side_e2_u8() {
+    w8::round_trip_same_side(2, 2);
+}
+
+//@ prop=C03 tier=quick kind=hold
+//@ enc=PoolDelta::{try_new,price_impact,is_same_side_rebalance}, PriceImpactParams::adjusted_factors, utils::apply_factors
+//@ bound=width-reduced T=u8, DECIMALS=1: every u8 USD-value pool and i8 USD delta pair (not i8::MIN) that cross the balance point, every factor pair, exponent 1*UNIT; both legs must succeed; no slack (total <= 0)
+//@ stubs=pool = plain VPool
+//@ timeout=1800
+#[kani::proof]
+#[kani::unwind(4)]
+fn c03_round_trip_cross_over_e1_u8() {
+    w8::round_trip_cross_over(1, 1);
+}
+
+//@ prop=C03 tier=quick kind=hold
+//@ enc=PoolDelta::{try_new,price_impact,is_same_side_rebalance}, PriceImpactParams::adjusted_factors, utils::apply_factors, Fixed::checked_pow
+//@ bound=width-reduced T=u8, DECIMALS=1: as c03_round_trip_cross_over_e1_u8 with exponent 2*UNIT (unwind 4)
+//@ stubs=pool = plain VPool
+//@ timeout=1800
+#[kani::proof]
+#[kani::unwind(4)]
+fn c03_round_trip_cross_over_e2_u8() {
+    w8::round_trip_cross_over(2, 2);
 }
 
 //@ prop=C03 tier=quick kind=finding:c03_round_trip_plus_one_unit
@@ -566,22 +640,24 @@ fn c03_round_trip_strict_same_side_u8() {
 
 //@ prop=C03 tier=quick kind=hold
 //@ enc=SwapMarketExt::swap_impact_value, BalanceExt::{pool_delta_with_amounts,pool_delta_with_values}, PoolDelta::price_impact
-//@ bound=width-reduced T=u8, DECIMALS=1: every u8 liquidity pool and virtual inventory (present or absent), i8 token deltas, prices 0..=15, every factor pair, exponent in {1,2}*UNIT (unwind 4)
+//@ bound=width-reduced T=u8, DECIMALS=1: every u8 liquidity pool and virtual inventory (present or absent), i8 token deltas, prices 0..=15, every factor pair, exponent 1*UNIT; decided: with-virtual <= without-virtual, equal when the real impact is >= 0 or no virtual pool exists, failure only from the virtual leg
 //@ stubs=market environment = plain-struct VMarket
+//@ timeout=1800
 #[kani::proof]
 #[kani::unwind(4)]
 fn c03_swap_virtual_impact_only_lowers_u8() {
-    w8::swap_virtual_impact(1, 2, 15);
+    w8::swap_virtual_impact(1, 1, 15, false);
 }
 
 //@ prop=C03 tier=quick kind=hold
 //@ enc=PositionExt::position_price_impact, BaseMarketExt::open_interest, Merged::{long_amount,short_amount}, Pool::checked_cancel_amounts (default method), BalanceExt::pool_delta_with_values, PoolDelta::price_impact
-//@ bound=width-reduced T=u8, DECIMALS=1: every u8 open-interest pool pair and virtual inventory (present or absent), every i8 size delta, long and short positions, every factor pair, exponent in {1,2}*UNIT (unwind 4)
+//@ bound=width-reduced T=u8, DECIMALS=1: every u8 open-interest pool pair and virtual inventory (present or absent), every i8 size delta, long and short positions, every factor pair, exponent 1*UNIT; decided: with-virtual <= without-virtual, equal when the real impact is >= 0 or no virtual pool exists
 //@ stubs=market/position environment = plain-struct VMarket/VPosition
+//@ timeout=1800
 #[kani::proof]
 #[kani::unwind(4)]
 fn c03_position_virtual_impact_only_lowers_u8() {
-    w8::position_virtual_impact(1, 2);
+    w8::position_virtual_impact(1, 1, false, false);
 }
 
 //@ prop=C03 tier=thorough kind=hold
@@ -616,13 +692,13 @@ fn c03_price_impact_exact_ref_u16() {
 
 //@ prop=C03 tier=thorough kind=hold
 //@ enc=PoolDelta::{try_new,price_impact}, PriceImpactParams::adjusted_factors, utils::apply_factors
-//@ bound=width-reduced T=u8, DECIMALS=1: round trip as c03_round_trip_not_profitable_u8 with exponent in {1,2,3}*UNIT (unwind 5)
+//@ bound=width-reduced T=u8, DECIMALS=1: round trip (both cases) with exponent 3*UNIT (unwind 5)
 //@ stubs=pool = plain VPool
 //@ timeout=5400 mem=30
 #[kani::proof]
 #[kani::unwind(5)]
 fn c03_round_trip_not_profitable_exp3_u8() {
-    w8::round_trip(1, 3);
+    w8::round_trip(3, 3);
 }
 
 //@ prop=C03 tier=thorough kind=hold
@@ -637,3 +713,26 @@ fn c03_round_trip_not_profitable_u16() {
 }
 
 
+
+
+//@ prop=C03 tier=thorough kind=hold
+//@ enc=SwapMarketExt::swap_impact_value, BalanceExt::{pool_delta_with_amounts,pool_delta_with_values}, PoolDelta::price_impact
+//@ bound=width-reduced T=u8, DECIMALS=1: as c03_swap_virtual_impact_only_lowers_u8, additionally the result equals min(real impact, exact reference of the virtual leg)
+//@ stubs=market environment = plain-struct VMarket
+//@ timeout=5400 mem=30
+#[kani::proof]
+#[kani::unwind(4)]
+fn c03_swap_virtual_impact_exact_min_u8() {
+    w8::swap_virtual_impact(1, 1, 15, true);
+}
+
+//@ prop=C03 tier=thorough kind=hold
+//@ enc=PositionExt::position_price_impact, BaseMarketExt::open_interest, Pool::checked_cancel_amounts (default method), PoolDelta::price_impact
+//@ bound=width-reduced T=u8, DECIMALS=1: as c03_position_virtual_impact_only_lowers_u8, additionally real leg == exact reference on the open-interest totals and result == min(real, exact reference of the netted/offset virtual leg)
+//@ stubs=market/position environment = plain-struct VMarket/VPosition
+//@ timeout=5400 mem=30
+#[kani::proof]
+#[kani::unwind(4)]
+fn c03_position_virtual_impact_exact_min_u8() {
+    w8::position_virtual_impact(1, 1, true, true);
+}
